@@ -28,7 +28,7 @@ RULE = (
 ASSUMPTIONS = ["latency bound = SEND_COLLECTION_TIMEOUT plus 4 clock resolutions"]
 FLOORS = {"quick": {"scenarios": 5000, "entries_queued": 150000, "entries_matched": 150000, "datagrams": 40000,
                     "request_at_close_before": 2000, "request_at_close_after": 2000, "request_close_adjacent": 3500,
-                    "bursts_over_15": 2000, "zero_timeout_scenarios": 1000, "requests_during_stop": 500, "real_traffic_scenarios": 800,
+                    "bursts_over_15": 2000, "zero_timeout_scenarios": 1000, "requests_during_stop": 500, "real_traffic_scenarios": 800, "collection_timeout_reassigned_at_a_quiet_instant": 250,
                     "mesh_scenarios": 100, "mesh_queue_entries_checked": 3000}}
 # system-level shards: the mesh workload of pv/mesh.py under this property's boundary monitors (reports of other monitors are dropped)
 MESH = {"want": ("queue",), "claim": ("mesh:queued-", "mesh:entry-on-the-wire"),
@@ -44,9 +44,17 @@ def wire_dst(d):
     return net.MCAST if d is None else d
 
 
-def check_logs(ctx, qlog, sent, ct, replay, detail, horizon):
-    """qlog: [(t, dst, tag)], sent: decoded messages with entries carrying 'tag'"""
+def check_logs(ctx, qlog, sent, ct, replay, detail, horizon, change=None):
+    """qlog: [(t, dst, tag)], sent: decoded messages with entries carrying 'tag'; change = (instant, new timeout) if the
+    application assigned another (non-zero) SEND_COLLECTION_TIMEOUT at a quiet instant of the run"""
     ok = True
+    ct_first = ct
+
+    def ct_of(tq):
+        return change[1] if change is not None and tq >= change[0] else ct_first
+
+    if change is not None:
+        ct = max(ct, change[1])
 
     def bad(mech, **d):
         nonlocal ok
@@ -93,9 +101,9 @@ def check_logs(ctx, qlog, sent, ct, replay, detail, horizon):
                     bad("wire-entries-differ-from-queued-entries", dst=dst, lost=lost, extra=extra)
             continue
         for (tq, tag), (tw, _t) in zip(q, w):
-            if tw < tq - 4 * RES or tw > tq + ct + 4 * RES:
+            if tw < tq - 4 * RES or tw > tq + ct_of(tq) + 4 * RES:
                 bad("entry-leaves-later-than-the-collection-timeout" if tw > tq else "entry-on-the-wire-before-it-was-queued",
-                    dst=dst, tag=tag, queued=tq, sent=tw, timeout=ct)
+                    dst=dst, tag=tag, queued=tq, sent=tw, timeout_in_force_when_queued=ct_of(tq))
                 break
         ctx.count("entries_matched", len(q))
     return ok
@@ -114,7 +122,7 @@ def tagged_entry(H, n, with_opts):
 def direct_scenario(ctx, rng, seed, replay):
     import someip.header as H
 
-    ct = rng.choice((0, 0, 2.0 ** -8, 2.0 ** -8, 2.0 ** -4))
+    ct = ct0 = rng.choice((0, 0, 2.0 ** -8, 2.0 ** -8, 2.0 ** -4))
     h = Harness(random.Random(seed), max_iterations=200000)
     prot, tr = net.make_sd(h.loop, ("10.0.10.1", 30490), timings=net.timings(SEND_COLLECTION_TIMEOUT=ct, INITIAL_DELAY_MIN=0,
                                                                              INITIAL_DELAY_MAX=0, REPETITIONS_MAX=0, CYCLIC_OFFER_DELAY=0))
@@ -149,7 +157,20 @@ def direct_scenario(ctx, rng, seed, replay):
             except Exception as exc:  # noqa: B902
                 raised.append(repr(exc))
 
-    for _ in range(rng.randrange(3, 25)):
+    nsteps = rng.randrange(3, 25)
+    change = None
+    change_step = rng.randrange(2, nsteps) if ct > 0 and nsteps > 3 and rng.random() < 0.2 else None
+    for step in range(nsteps):
+        if step == change_step:
+            # the application assigns another non-zero collection timeout while nothing is being collected (every window has
+            # closed): from now on entries leave within the NEW timeout, also for destinations that were addressed before
+            tc = now + ct + 2.0 ** -6  # whatever window was opened up to now has closed by then
+            ct2 = rng.choice([x for x in (2.0 ** -9, 2.0 ** -8, 2.0 ** -6, 2.0 ** -4) if x != ct])
+            change = (tc, ct2)
+            h.at(tc, setattr, prot.timings, "SEND_COLLECTION_TIMEOUT", ct2)
+            now, ct = tc, ct2
+            close.clear()
+            ctx.count("collection_timeout_reassigned_at_a_quiet_instant")
         dst = rng.choice(dsts)
         pl = rng.choice(("random", "random", "d-eps", "d:before", "d:after", "d+eps", "same", "d-res"))
         rank = BEFORE
@@ -202,15 +223,16 @@ def direct_scenario(ctx, rng, seed, replay):
     qsnap = list(qlog)  # teardown cancels the offer tasks, which queue StopOffers nobody will send
     h.close()
     ctx.count("scenarios")
+    ct = ct0
     if ct == 0:
         ctx.count("zero_timeout_scenarios")
-    detail = dict(timeout=ct, pattern=pattern[:20])
+    detail = dict(timeout=ct, pattern=pattern[:20], timeout_reassigned=change)
     for r in raised:
         ctx.violation("queue_send-raises", dict(exc=r, **detail), replay)
     for p in problems:
         ctx.violation("unexpected-exception-during-run", dict(problem=p, **detail), replay)
     if sent is not None:
-        check_logs(ctx, qsnap, sent, ct, replay, detail, horizon)
+        check_logs(ctx, qsnap, sent, ct, replay, detail, horizon, change)
     return (ct, tuple(pattern)), nontrivial
 
 
